@@ -35,6 +35,7 @@ type refFace struct {
 	Mat   string // "" = no usemtl in force
 	C     [3]refCorner
 	Line  int
+	Seg   int // number of g statements met before this face (0 = before any g)
 }
 
 type refMeaning struct {
@@ -111,6 +112,7 @@ func interpretOBJ(text string) (*refMeaning, error) {
 	var V, N [][3]float32
 	var T [][2]float32
 	group, mat := "", ""
+	seg := 0
 	for ln, line := range splitLines(text) {
 		tk := tokens(line)
 		if len(tk) == 0 {
@@ -153,6 +155,7 @@ func interpretOBJ(text string) (*refMeaning, error) {
 		case "g":
 			group = strings.Join(tk[1:], " ")
 			m.Groups = append(m.Groups, group)
+			seg++
 		case "usemtl":
 			mat = strings.Join(tk[1:], " ")
 			m.Usemtl++
@@ -189,7 +192,7 @@ func interpretOBJ(text string) (*refMeaning, error) {
 				cs = append(cs, c)
 			}
 			for k := 1; k+1 < len(cs); k++ {
-				m.Faces = append(m.Faces, refFace{Group: group, Mat: mat, C: [3]refCorner{cs[0], cs[k], cs[k+1]}, Line: ln + 1})
+				m.Faces = append(m.Faces, refFace{Group: group, Mat: mat, C: [3]refCorner{cs[0], cs[k], cs[k+1]}, Line: ln + 1, Seg: seg})
 			}
 		default:
 			m.Ignored[tk[0]]++
